@@ -503,3 +503,37 @@ pub fn main_shrink(args: &[String]) -> i32 {
     std::fs::write(&args[1], serde_json::to_string_pretty(&out).unwrap()).expect("write");
     0
 }
+
+/// Determinism self-test support: print one line per run with a hash of the complete recorded
+/// history (calls, programs, operations, events, value tracking, schedule) - addresses excluded.
+pub fn main_fingerprint(args: &[String]) -> i32 {
+    std::panic::set_hook(Box::new(|_| {}));
+    let prop = arg(args, "--prop").expect("--prop");
+    let seed: u64 = arg(args, "--seed").and_then(|s| s.parse().ok()).unwrap_or(1);
+    let runs: u64 = arg(args, "--runs").and_then(|s| s.parse().ok()).unwrap_or(200);
+    let worker: u64 = arg(args, "--worker").and_then(|s| s.parse().ok()).unwrap_or(0);
+    let of: u64 = arg(args, "--of").and_then(|s| s.parse().ok()).unwrap_or(1);
+    for (batch, _) in props::batches(prop, "quick") {
+        let mut run = worker;
+        while run < runs {
+            let scn = props::generate(prop, seed, batch, run);
+            let fp = if scn.threads.is_empty() || scn.knob("isolated").is_some() {
+                let c = props::check(&scn);
+                crate::rng::hash_str(&format!("{:?}{:?}", c.violations.len(), c.stats.shape))
+            } else {
+                let res = crate::world::run(&scn);
+                let mut log = res.log;
+                for e in log.lend.iter_mut() {
+                    if let crate::ctx::LendWhat::Taken { addr, .. } = &mut e.what {
+                        *addr = 0;
+                    }
+                }
+                let text = serde_json::to_string(&log).unwrap_or_default();
+                crate::rng::hash_str(&text) ^ res.sched.signature ^ res.sched.steps
+            };
+            println!("{prop} {batch} {run} {fp:016x}");
+            run += of;
+        }
+    }
+    0
+}
